@@ -18,6 +18,8 @@ STORAGE_CATS = ('convert-from-unit', 'from-storage', 'storage-label', 'storage-c
 
 
 def run(ctx):
+    from .configtime import refusals_not_swallowed as _no_swallow
+    _no_swallow(ctx, 'C12.R4')
     from .configtime import derived_values as _derived
     _derived(ctx, 'C12.R3', ('Container', 'Unit', 'Substance'))
     from .configtime import decisions_not_taken_on_display_values as _coarse
